@@ -1,48 +1,76 @@
 #!/usr/bin/env python3
-"""Applies every confirmed seed under /verif/seeded/*/patch.diff to /repo (one at a time, reverted afterwards),
-runs all checks and records which properties report a violation; then does the same with every
-behaviour-preserving refactoring under /verif/refactors/*/refactor-*.diff, where ANY violation is a false alarm.
+"""Applies every confirmed seed under /verif/seeded/*/patch.diff and every behaviour-preserving
+refactoring under /verif/refactors/*/refactor-*.diff to a scratch worktree of /repo (K in parallel; /repo
+itself is never touched), runs ALL checks on it and records which properties report a violation.
+A seed should be reported; any violation on a refactoring is a false alarm.
 Writes seeded/MATRIX.md and updates each seed's meta.json.
-usage: seed_matrix.py [seed-id ...] [--no-refactors]"""
-import json, os, subprocess, sys, glob, re
+usage: seed_matrix.py [seed-id ...] [--no-refactors] [-j K]"""
+import json, os, subprocess, sys, glob, re, shutil
+from concurrent.futures import ThreadPoolExecutor
+import queue
 V='/verif'
-os.makedirs('/tmp/tryseed-out', exist_ok=True)
-subprocess.run(['cp', f'{V}/known_findings.json', '/tmp/tryseed-out/'])
-args=[a for a in sys.argv[1:] if not a.startswith('--')]
+argv=sys.argv[1:]
+K=4
+if '-j' in argv:
+    i=argv.index('-j'); K=int(argv[i+1]); del argv[i:i+2]
+args=[a for a in argv if not a.startswith('--')]
 only=set(args)
-do_ref='--no-refactors' not in sys.argv and not only
-rows=[]
+do_ref='--no-refactors' not in argv and not only
+subprocess.run([f'{V}/setup.sh'],cwd=V)
 def natkey(s):
     return [int(t) if t.isdigit() else t for t in re.split(r'(\d+)', s)]
-for d in sorted(glob.glob(f'{V}/seeded/*/'), key=natkey):
-    sid=os.path.basename(d.rstrip('/'))
-    if only and sid not in only: continue
-    p=os.path.join(d,'patch.diff')
-    if not os.path.exists(p): continue
-    out=subprocess.run([f'{V}/tools/try_seed.sh', p], capture_output=True, text=True).stdout
+# scratch worktrees
+pool=queue.Queue()
+wts=[]
+for k in range(K):
+    wt=f'/tmp/wt-matrix{k}'
+    subprocess.run(['git','-C','/repo','worktree','remove','--force',wt],capture_output=True)
+    subprocess.run(['git','-C','/repo','worktree','prune'],capture_output=True)
+    r=subprocess.run(['git','-C','/repo','worktree','add','-q','--detach',wt,'HEAD'],capture_output=True,text=True)
+    if r.returncode!=0:
+        print('cannot create worktree',wt,r.stderr); sys.exit(2)
+    wts.append(wt); pool.put(wt)
+def run(patch):
+    wt=pool.get()
+    try:
+        out=subprocess.run([f'{V}/tools/try_patch_wt.sh', patch, wt], capture_output=True, text=True).stdout
+    finally:
+        pool.put(wt)
     props=sorted({l.split('property=')[1].split()[0] for l in out.splitlines() if l.startswith('VIOLATION')})
     fails=[l for l in out.splitlines() if l.startswith('FAIL')]
     rules=sorted({l.split()[2] for l in fails if len(l.split())>2})
-    meta=json.load(open(os.path.join(d,'meta.json')))
-    meta['detected_by']=props
-    meta['rules_fired']=rules
-    meta['first_report']=fails[0][:300] if fails else ''
-    if 'does not apply' in out or 'refusing' in out: meta['detected_by']=['PATCH-DOES-NOT-APPLY']
-    json.dump(meta,open(os.path.join(d,'meta.json'),'w'),indent=1)
-    rows.append((sid,meta['property'],meta['detected_by'],rules))
-    print(sid,meta['property'],meta['detected_by'],rules,flush=True)
-ref_rows=[]
-if do_ref:
-    for p in sorted(glob.glob(f'{V}/refactors/*/refactor-*.diff'), key=natkey):
+    if 'does not apply' in out: props=['PATCH-DOES-NOT-APPLY']
+    return props,rules,fails
+seeds=[]
+for d in sorted(glob.glob(f'{V}/seeded/*/'), key=natkey):
+    sid=os.path.basename(d.rstrip('/'))
+    if only and sid not in only: continue
+    if os.path.exists(os.path.join(d,'patch.diff')): seeds.append((sid,d))
+refs=sorted(glob.glob(f'{V}/refactors/*/refactor-*.diff'), key=natkey) if do_ref else []
+rows=[]; ref_rows=[]
+with ThreadPoolExecutor(max_workers=K) as ex:
+    futs=[(sid,d,ex.submit(run,os.path.join(d,'patch.diff'))) for sid,d in seeds]
+    rfuts=[(p,ex.submit(run,p)) for p in refs]
+    for sid,d,f in futs:
+        props,rules,fails=f.result()
+        meta=json.load(open(os.path.join(d,'meta.json')))
+        meta['detected_by']=props; meta['rules_fired']=rules
+        meta['first_report']=fails[0][:300] if fails else ''
+        json.dump(meta,open(os.path.join(d,'meta.json'),'w'),indent=1)
+        rows.append((sid,meta['property'],props,rules))
+        print(sid,meta['property'],props,rules,flush=True)
+    for p,f in rfuts:
+        props,rules,fails=f.result()
         name='/'.join(p.split('/')[-2:])
-        out=subprocess.run([f'{V}/tools/try_seed.sh', p], capture_output=True, text=True).stdout
-        props=sorted({l.split('property=')[1].split()[0] for l in out.splitlines() if l.startswith('VIOLATION')})
-        if 'does not apply' in out or 'refusing' in out: props=['PATCH-DOES-NOT-APPLY']
         ref_rows.append((name,props))
-        print('REFACTOR',name,props,flush=True)
+        print('REFACTOR',name,props,(fails[0][:160] if fails else ''),flush=True)
+for wt in wts:
+    subprocess.run(['git','-C','/repo','worktree','remove','--force',wt],capture_output=True)
+    shutil.rmtree(f'/tmp/trywt-{os.path.basename(wt)}',ignore_errors=True)
+subprocess.run(['git','-C','/repo','worktree','prune'],capture_output=True)
 if not only:
     with open(f'{V}/seeded/MATRIX.md','w') as f:
-        f.write('# Seeded defects vs checks\n\nEach row: a sub-agent-written defect (confirmed: builds, suite green, demo fails with / passes without), the property it was written against, and the checks that report it when the patch is applied to /repo. Seeds named -2 come from a second round in which the agent was told which site the first round had used.\n\n| seed | target | detected by | rules |\n|---|---|---|---|\n')
+        f.write('# Seeded defects vs checks\n\nEach row: a sub-agent-written defect (confirmed: builds, suite green, demo fails with / passes without), the property it was written against, and the checks that report it when the patch is applied to a copy of /repo. Seeds named -2 come from a second round in which the agent was told which site the first round had used.\n\n| seed | target | detected by | rules |\n|---|---|---|---|\n')
         for sid,prop,props,rules in rows:
             f.write(f"| {sid} | {prop} | {', '.join(props) or '**missed**'} | {', '.join(rules)} |\n")
         det=sum(1 for r in rows if r[2] and r[2]!=['PATCH-DOES-NOT-APPLY'])
